@@ -89,12 +89,15 @@ static CO_ERR COTPdoEventWrite(struct CO_OBJ_T *obj, struct CO_NODE_T *node, voi
     tmr = &pdo->Node->Tmr;
     if (pdo->EvTmr >= 0) {
         tid = COTmrDelete(tmr, pdo->EvTmr);
+        pdo->EvTmr = -1;
         if (tid < 0) {
             return (CO_ERR_TYPE_WR);
         }
     }
     if (pdo->InTmr >= 0) {
         tid = COTmrDelete(tmr, pdo->InTmr);
+        pdo->InTmr  = -1;
+        pdo->Flags &= ~CO_TPDO_FLG__I_;
         if (tid < 0) {
             return (CO_ERR_TYPE_WR);
         }
@@ -116,6 +119,12 @@ static CO_ERR COTPdoEventWrite(struct CO_OBJ_T *obj, struct CO_NODE_T *node, voi
                                         (void*)pdo);
             }
         }
+    }
+
+    /* a transmission deferred by the stopped inhibit time is sent now */
+    if ((pdo->Flags & CO_TPDO_FLG___E) != 0) {
+        pdo->Flags &= ~CO_TPDO_FLG___E;
+        COTPdoTx(pdo);
     }
     return (CO_ERR_NONE);
 }
